@@ -134,7 +134,8 @@ Section SafeX.
   Definition sie_failure (rep : origin_reply) : Prop :=
     rep = RErr \/ exists r', rep = RResp r' /\ is_stale_error_allowed (p_status r') = true.
   Definition stale_if_error_outcome (e : stored_entry) (f : freshness) (now : Z) : outcome :=
-    OResp (response_of (entry_with_hdr e (apply_status STALE (hset (bs "Age") (age_header_value f now) (e_hdr e))))).
+    OResp (response_of (entry_with_hdr e (apply_status STALE (hset (bs "Age") (age_header_value f now)
+      (strip_qualified (match resp_no_cache (parse_cc (e_hdr e)) with Some raw => no_cache_fields raw | None => None end) (e_hdr e)))))).
 
   Definition hvr_leaf (stored : stored_entry) (f : freshness) (cc_req : directives) (no_stale : bool)
              (rep : origin_reply) (o : outcome) : Prop :=
